@@ -601,6 +601,17 @@ struct world
         viol("operator^=", "returned-reference", "does not return its left operand");
       judge("operator^=", t, a ^ b, a, b);
     }
+    // self operands: the right operand is the object that is being modified
+    if (a == b)
+    {
+      bf t = A;
+      t |= t;
+      judge("operator|=", t, a, a, a);
+      t &= t;
+      judge("operator&=", t, a, a, a);
+      t ^= t;
+      judge("operator^=", t, 0, a, a);
+    }
     // the operands are unchanged
     if (members(A) != a || members(B) != b)
       viol("operators", "operand-modified", "an operand changed; a=" + hex(a) + " b=" + hex(b));
